@@ -688,6 +688,9 @@ func (s *session) exec(args []string) string {
 		return fmt.Sprintf("ver=%d", v)
 	case "loadow":
 		if err := t.LoadVersionForOverwriting(atoi(args[1])); err != nil {
+			if os.Getenv("VERIF_DEBUG") != "" {
+				fmt.Fprintln(os.Stderr, "loadow:", err)
+			}
 			return "err"
 		}
 		return "ok"
